@@ -5,7 +5,7 @@ SPEC = {
         "keep-set model from the statement: active-chain blocks at heights >= tip-287, and every stored block at a height above a registered prune lock "
         "(lock heights tracked by the model incl. the move-back-on-disconnect rule); the code's extra 10-block lock buffer is not required",
         "regtest -fastprune (64 KiB block files), manual-prune mode; prune locks are driven through BlockManager::UpdatePruneLock directly (no real index)",
-        "automatic pruning is reached through hook H2 (verif::g_min_prune_target / g_prune_buffer, guard BITCOIN_VERIF_HOOKS): targets 0.75-6.9 MiB, buffers "
+        "automatic pruning is reached through hook H2 (verif::g_min_prune_target / g_prune_buffer, guard BITCOIN_VERIF_HOOKS): targets 0.75-5 MiB, buffers "
         "0-140 kB; a pass is recognised by files disappearing during a block delivery; its stop rule is judged with the node's own per-file byte accounting; "
         "linear chain only in that mode; node out of IBD (mock clock) so that the IBD-only extra buffer is not part of the model",
         "snapshot/background-validation clause not exercised",
@@ -13,8 +13,8 @@ SPEC = {
     ],
     "stages": [
         gen("vh_c19", "c19_prune", 160, 3000, min_cases_quick=48,
-            floors={"pruned-files": 0.5, "straddling-file": 0.25, "lock": 0.3, "lock-cuts-file": 0.05, "headers-ahead": 0.1, "reorg": 0.1,
-                    "auto-prune-event": 0.12, "auto-stopped-under-target": 0.04, "auto-stopped-no-eligible-file": 0.04},
+            floors={"pruned-files": 0.4, "straddling-file": 0.25, "lock": 0.3, "lock-cuts-file": 0.05, "headers-ahead": 0.1, "reorg": 0.03,
+                    "auto-prune-event": 0.12, "auto-stopped-under-target": 0.03, "auto-stopped-no-eligible-file": 0.04},
             rule="300-620 block chains with generated block sizes on 64 KiB files; manual prunes around tip-288 and lock-11, locks, reorgs, headers ahead; "
                  "non-trivial = request reached into a file straddling the 288 boundary or cut by a lock"),
     ],
